@@ -32,7 +32,8 @@ git apply -R $OUT/patch.diff
 without=$(cargo test -p $DEMOCRATE --test $DEMONAME --offline --target-dir $WT/target 2>&1 | grep -E "^test result" | head -1)
 echo "demo without patch: $without"
 rm -f $DEMO
-# now the checks against /repo
+# now the checks against /repo (SEEDCHECK_PHASE=1: stop here, only confirm suite + demo)
+if [ "${SEEDCHECK_PHASE:-}" = 1 ]; then echo "suite with patch: $suite" > $OUT/confirm1.txt; echo "demo ($DEMO) with patch: $with" >> $OUT/confirm1.txt; echo "demo without patch: $without" >> $OUT/confirm1.txt; exit 0; fi
 cd /verif
 git -C /repo apply $OUT/patch.diff || { echo "PATCH DOES NOT APPLY TO /repo"; exit 3; }
 results=""
